@@ -19,7 +19,7 @@ def prop(pid, steps, assumptions=(), trusted=()):
     PROPS[pid] = {'id': pid, 'steps': steps, 'assumptions': list(assumptions), 'trusted': list(trusted)}
 
 
-CLOCK = 'clock model (DESIGN 2.7): Instant::now() returns an arbitrary instant; the single .elapsed() call of a public call returns clock_reading(instant) (uninterpreted); Duration obeys vstd partial_cmp_spec; no monotonicity assumed. Guard: at most one `.elapsed()` call in the extracted file, else exit 2'
+CLOCK = 'clock model (DESIGN 2.7): the clock is frozen during one public call: every Instant::now() of the call returns current_instant() and every .elapsed() on a stored instant returns clock_reading(instant) (both uninterpreted, arbitrary per call); Duration obeys vstd partial_cmp_spec; no monotonicity and no relation between the two is assumed'
 FEEDCLOCK = 'feed() never reads the clock (it only stamps Instant::now() into arrival_time, which the abstraction forgets): proved as part of the refinement clauses in the C12/C14 slices, guarded syntactically here'
 
 def k(unit, pid, features=None, **kw):
